@@ -428,7 +428,7 @@ def check_history(run, rep, h, p, x, fresh):
                     j += 1
         if h["kind"] == "alt-ber":
             run.count("alt_ber_dec_%s" % p[0].get("rc"))
-            if p[0].get("rc") == "OK" and c.get("der") and p[1].get("hex") != c["der"]:
+            if p[0].get("rc") == "OK" and c.get("der") and p[1].get("hex") != hex_digest(c["der"]):
                 bad.append(("value", 0, "an alternative BER form decodes to a different value"))
         if h["kind"] == "fresh":
             run.count("fresh_dec_%s_%s" % (h["syn"], p[0].get("rc")))
@@ -441,7 +441,7 @@ def check_history(run, rep, h, p, x, fresh):
                     run.violation("correspondence:Heap.owned", dict(rep, what="after a successful %s decode the C holds %s live blocks, the model's structure owns %s (%s)"
                                                                     % (h["syn"], nC, own["n"], " ".join("%s=%s" % kv for kv in own.items())),
                                                                     c=h["out"][:600]), no_input=True)
-            if p[0].get("rc") == "OK" and c.get("der") and p[1].get("hex") != c["der"]:
+            if p[0].get("rc") == "OK" and c.get("der") and p[1].get("hex") != hex_digest(c["der"]):
                 bad.append(("value", 0, "valid %s encoding decodes to a different value" % h["syn"]))
     for kind, opi, what in bad:
         run.violation("oracle:%s(%s)" % (kind, kindtag), dict(rep, what=what, c=" | ".join("%s %s" % (d["op"], " ".join("%s=%s" % kv for kv in d.items() if kv[0] not in ("op", "hex", "pre", "post"))) for d in p)))
